@@ -2024,16 +2024,20 @@ class AndNegMacro(Macro):
         self.limit = None
 
     def eval(self, args, prevs=None):
+        if len(args) < 3 or not args[0].is_conj():
+            raise VeriTException("and_neg", "clause must be a conjunction followed by its negated conjuncts")
         conj = args[0]
         neg_disjs = args[1:]
         expected_conj = []
+        complete = False
         while conj.is_conj():
             expected_conj.append(Not(conj.arg1))
-            if Not(conj.arg) == args[-1]:
+            if Not(conj.arg) == args[-1] and len(expected_conj) == len(neg_disjs) - 1:
                 expected_conj.append(Not(conj.arg))
+                complete = True
                 break
             conj = conj.arg
-        if neg_disjs != tuple(expected_conj):
+        if not complete or neg_disjs != tuple(expected_conj):
             raise VeriTException("and_neg", "Unexpected goal")
         return Thm(Or(*args))
 
